@@ -255,3 +255,8 @@ async def paren_targets():
     async for (ax) in y: pass
     async with a as (ab): pass
     [1 async for (ax) in y]
+with []: pass
+with [] as we: pass
+with [], () as wf, {} as wg: pass
+with [].x as wh, [][0] as wi: pass
+with [] + [] as wj: pass
